@@ -303,19 +303,17 @@ Definition vdenote (sigs : list shape) (env : list Z) (e : vexpr) : Z :=
   | VNeg i => - sig_val env i
   end.
 
-Inductive res := Ok (t : list Z) | Err (code : Z).   (* 2 OverflowError, 3 UnicodeDecodeError, 4 ValueError *)
+Inductive res := Ok (t : list Z) | Err (code : Z).   (* 2 OverflowError, 3 UnicodeDecodeError *)
 
-Definition brace_fill (sp : spec) : bool :=
-  match f_fill sp with Some c => (c =? 123) || (c =? 125) | None => false end.
-
-(* one field: rhs.sign(value), then "{:<spec>}".format(...) on the re-assembled format string;
-   a '{' or '}' fill makes the re-assembled format string malformed (ValueError at run time) *)
+(* one field: rhs.sign(value), then "{:<spec>}".format(...), i.e. Python's format of the value in its shape.
+   (The real code re-assembles one format string for str.format; for a '{' or '}' fill character that string is
+   malformed and str.format raises ValueError at run time — finding C20-brace-fill; the model follows the
+   specification, the harness recognises the disagreement.) *)
 Definition emit_field (sp : spec) (sh : shape) (raw : Z) : res :=
-  if brace_fill sp then Err 4
-  else match py_format sp (norm sh raw) with
-       | Some t => Ok t
-       | None => Err (match f_type sp with Some Ts => 3 | _ => 2 end)
-       end.
+  match py_format sp (norm sh raw) with
+  | Some t => Ok t
+  | None => Err (match f_type sp with Some Ts => 3 | _ => 2 end)
+  end.
 
 Inductive chunk := CLit (t : list Z) | CField (e : vexpr) (s : list Z).
 Definition format := list chunk.
